@@ -365,6 +365,20 @@ def rand_bound(rng, n):
     return rng.randint(n + 1, n + 3)
 
 
+_ELEM_KIND = {}
+
+
+def _elem_kind(et, src):
+    """Class name of the node a snippet denotes as an element of type `et` (by CPython's parse), '' if it has none."""
+    k = (et, src)
+    if k not in _ELEM_KIND:
+        try:
+            _ELEM_KIND[k] = parse_elem(et, src)[0].__class__.__name__
+        except (SyntaxError, ValueError):
+            _ELEM_KIND[k] = ''
+    return _ELEM_KIND[k]
+
+
 def plan_edit(rng: random.Random, tree, weights=None) -> Plan | None:
     cands = candidates(tree)
     if not cands:
@@ -422,12 +436,8 @@ def plan_edit(rng: random.Random, tree, weights=None) -> Plan | None:
             p.srcs = [rng.choice(pool) for _ in range(k)]
             # an element of the container's own sequence type would be spliced, not nested (d06 "put as one"): the
             # abstract request is only unambiguous for elements of other kinds
-            if kind == 'BoolOp':
-                p.srcs = [s for s in p.srcs if s not in ('p and q', 'p or q')]
-            elif kind == 'MatchOr':
-                p.srcs = [s for s in p.srcs if s != 'p5 | p6']
-            elif kind == 'Compare':
-                p.srcs = [s for s in p.srcs if s != '(p < q)']
+            if kind in ('BoolOp', 'MatchOr', 'Compare'):
+                p.srcs = [s for s in p.srcs if _elem_kind(p.et, s) != kind]
         elif r < 0.8:
             p.form = 'one'
             p.idx = rng.randint(-n - 1, n) if rng.random() < 0.3 else (rng.randrange(n) if n else 0)
